@@ -39,12 +39,27 @@ def resolve(arguments, refs):
     return out, len(unresolved), len(unused)
 
 
+def _tok(c: str) -> bool:
+    """A character of the alphabet that the loader itself accepts in a reference token (FlowIR.discover_reference_strings:
+    [.a-zA-Z0-9_/-], minus the separators '.' and '/'): a producer whose name holds any other character cannot be referenced in
+    an argument string at all (the workflow is rejected at load: "Unknown reference to A:ref" for a producer called !A)."""
+    o = ord(c)
+    return 48 <= o <= 57 or 65 <= o <= 90 or 97 <= o <= 122 or o == 45 or o == 95
+
+
 def name_ok(s: str) -> bool:
-    return 1 <= len(s) and all('!' <= c <= '~' for c in s) and not any(c in s for c in ':/%.=') \
+    return 1 <= len(s) and all(_tok(c) for c in s) \
         and not s.startswith('stage') and s not in ('input', 'data', 'bin', 'conf')
 
 
+LIGHT = [False]      # set while a contract runs on CrossHair's symbolic string: one declaration order, one argument shape
+                      # (a path through resolveArguments costs ~10 s there); native calls (sweep, replay) do everything
+
+
 def both_orders(arguments, r1, r2, expected):
+    if LIGHT[0]:
+        # the order that exposes an overlap: the shorter / relative spelling is substituted first
+        return resolve(arguments, [r2(), r1()])[0] == expected
     a = resolve(arguments, [r1(), r2()])
     b = resolve(arguments, [r2(), r1()])
     return a[0] == expected and b[0] == expected
@@ -56,14 +71,16 @@ def _pair(s, rep, spelling_rep, spelling_s, method='ref'):
     r2 = lambda: HRef('stage0.%s:%s' % (s, method), 0, '/P-sym')
     t1 = ('stage0.%s:%s' if spelling_rep == 'abs' else '%s:%s') % (rep, method)
     t2 = ('stage0.%s:%s' if spelling_s == 'abs' else '%s:%s') % (s, method)
+    LIGHT[0] = type(s) is not str
     ok = both_orders('%s %s' % (t1, t2), r1, r2, '/P-rep /P-sym')
-    ok = ok and both_orders('-x %s --y=%s tail' % (t2, t1), r1, r2, '-x /P-sym --y=/P-rep tail')
+    if not LIGHT[0]:
+        ok = ok and both_orders('-x %s --y=%s tail' % (t2, t1), r1, r2, '-x /P-sym --y=/P-rep tail')
     return ok
 
 
 def _c10_relative_relative_A(s: str) -> bool:
     """
-    pre: 1 <= len(s) <= 2 and 33 <= ord(s[0]) <= 126 and 33 <= ord(s[-1]) <= 126 and ':' not in s and '/' not in s and '%' not in s and '.' not in s and '=' not in s and s != 'A'
+    pre: 1 <= len(s) <= 2 and _tok(s[0]) and _tok(s[-1]) and ':' not in s and '/' not in s and '%' not in s and '.' not in s and '=' not in s and s != 'A'
     post: _
     """
     return _pair(s, 'A', 'rel', 'rel')
@@ -75,7 +92,7 @@ def _c10_relative_relative_A_pre(s):
 
 def _c10_relative_relative_AB(s: str) -> bool:
     """
-    pre: 1 <= len(s) <= 2 and 33 <= ord(s[0]) <= 126 and 33 <= ord(s[-1]) <= 126 and ':' not in s and '/' not in s and '%' not in s and '.' not in s and '=' not in s and s != 'AB'
+    pre: 1 <= len(s) <= 2 and _tok(s[0]) and _tok(s[-1]) and ':' not in s and '/' not in s and '%' not in s and '.' not in s and '=' not in s and s != 'AB'
     post: _
     """
     return _pair(s, 'AB', 'rel', 'rel')
@@ -87,9 +104,11 @@ def _c10_relative_relative_AB_pre(s):
 
 def _c10_absolute_relative_A1(s: str) -> bool:
     """
-    pre: 1 <= len(s) <= 2 and 33 <= ord(s[0]) <= 126 and 33 <= ord(s[-1]) <= 126 and ':' not in s and '/' not in s and '%' not in s and '.' not in s and '=' not in s and s != 'A1'
+    pre: 1 <= len(s) <= 2 and _tok(s[0]) and _tok(s[-1]) and ':' not in s and '/' not in s and '%' not in s and '.' not in s and '=' not in s and s != 'A1'
     post: _
     """
+    if type(s) is not str:
+        return _pair(s, 'A1', 'rel', 'abs')
     return _pair(s, 'A1', 'abs', 'rel') and _pair(s, 'A1', 'rel', 'abs') and _pair(s, 'A1', 'abs', 'abs')
 
 
@@ -99,10 +118,12 @@ def _c10_absolute_relative_A1_pre(s):
 
 def _c10_absolute_absolute(s: str) -> bool:
     """
-    pre: 1 <= len(s) <= 2 and 33 <= ord(s[0]) <= 126 and 33 <= ord(s[-1]) <= 126 and ':' not in s and '/' not in s and '%' not in s and '.' not in s and '=' not in s and s != 'A1' and s != 'A'
+    pre: 1 <= len(s) <= 2 and _tok(s[0]) and _tok(s[-1]) and ':' not in s and '/' not in s and '%' not in s and '.' not in s and '=' not in s and s != 'A1' and s != 'A'
     post: _
     """
     # every reference spelled absolutely: exact whatever the names share (the open finding needs a RELATIVE spelling)
+    if type(s) is not str:
+        return _pair(s, 'A1', 'abs', 'abs')
     return _pair(s, 'A1', 'abs', 'abs') and _pair(s, 'A', 'abs', 'abs')
 
 
@@ -127,11 +148,12 @@ def _c10_output_contents_verbatim_pre(v):
 
 def _c10_output_contents_A(s: str) -> bool:
     """
-    pre: 1 <= len(s) <= 2 and 33 <= ord(s[0]) <= 126 and 33 <= ord(s[-1]) <= 126 and ':' not in s and '/' not in s and '%' not in s and '.' not in s and '=' not in s and s != 'A'
+    pre: 1 <= len(s) <= 2 and _tok(s[0]) and _tok(s[-1]) and ':' not in s and '/' not in s and '%' not in s and '.' not in s and '=' not in s and s != 'A'
     post: _
     """
     r1 = lambda: HRef('stage0.A/o.txt:output', 0, 'contents-rep')
     r2 = lambda: HRef('stage0.%s/o.txt:output' % s, 0, 'contents-sym')
+    LIGHT[0] = type(s) is not str
     return both_orders('A/o.txt:output %s/o.txt:output' % s, r1, r2, 'contents-rep contents-sym')
 
 
@@ -140,11 +162,12 @@ _c10_output_contents_A_pre = _c10_relative_relative_A_pre
 
 def _c10_same_name_two_stages(s: str) -> bool:
     """
-    pre: 1 <= len(s) <= 2 and 33 <= ord(s[0]) <= 126 and 33 <= ord(s[-1]) <= 126 and ':' not in s and '/' not in s and '%' not in s and '.' not in s and '=' not in s
+    pre: 1 <= len(s) <= 2 and _tok(s[0]) and _tok(s[-1]) and ':' not in s and '/' not in s and '%' not in s and '.' not in s and '=' not in s
     post: _
     """
     r0 = lambda: HRef('stage0.%s:ref' % s, 0, '/P-stage0')
     r1 = lambda: HRef('stage1.%s:ref' % s, 0, '/P-stage1')
+    LIGHT[0] = type(s) is not str
     return both_orders('stage1.%s:ref %s:ref' % (s, s), r0, r1, '/P-stage1 /P-stage0')
 
 
@@ -158,6 +181,9 @@ def _c10_literal_text_untouched(s: str) -> bool:
     post: _
     """
     r1 = lambda: HRef('stage0.A:ref', 0, '/P-rep')
+    if type(s) is not str:
+        out, n_unresolved, n_unused = resolve('%s A:ref' % s, [r1()])
+        return out == '%s /P-rep' % s and n_unused == 0
     out, n_unresolved, n_unused = resolve('%s A:ref %s' % (s, s), [r1()])
     return out == '%s /P-rep %s' % (s, s) and n_unused == 0
 
@@ -168,7 +194,7 @@ def _c10_literal_text_untouched_pre(s):
 
 def _c10_unused_and_undeclared_reported(s: str) -> bool:
     """
-    pre: 1 <= len(s) <= 2 and 33 <= ord(s[0]) <= 126 and 33 <= ord(s[-1]) <= 126 and ':' not in s and '/' not in s and '%' not in s and '.' not in s and '=' not in s and s != 'A'
+    pre: 1 <= len(s) <= 2 and _tok(s[0]) and _tok(s[-1]) and ':' not in s and '/' not in s and '%' not in s and '.' not in s and '=' not in s and s != 'A'
     post: _
     """
     out, n_unresolved, n_unused = resolve('A:ref', [HRef('stage0.A:ref', 0, '/P'), HRef('stage0.%s:ref' % s, 0, '/Q')])
